@@ -1667,20 +1667,26 @@ def _noop(*a, **k):
 # ---- the model world of the car loader -------------------------------------------------------------------------------------------------------------------------------------
 # three cars (two with config bases, one mixin without any), four config bases (one of them without a config.ini), car parameters. Every key is defined by a chosen set of
 # sources so that each clause of the documented precedence decides the value of at least one key; every source also has a key of its own (only_<source>).
+# The e_* keys are defined TWICE each: with a value by an earlier / lower-precedence source and with the EMPTY STRING (`key =` in the ini file, `key:` as a car parameter: the
+# documented way to clear a default) by the source the documented precedence lets win - an empty definition is a definition like any other.
 _CARS = {
     "c2": {"meta": {"description": "car two", "type": "car"}, "config": {"base": "b2,b3,b2"},
-           "variables": {"k_all": "c2", "k_car": "c2", "k_mixin": "c2", "k_cb": "c2", "k_c2": "c2", "only_c2": "c2"}},
-    "c1": {"meta": {"description": "car one", "type": "car"}, "config": {"base": "b1,,b4,b2"}, "variables": {"k_all": "c1", "k_car": "c1", "only_c1": "c1"}},
-    "mx": {"meta": {"description": "a mixin", "type": "mixin"}, "variables": {"k_all": "mx", "k_mixin": "mx", "k_mx": "mx", "only_mx": "mx"}},
+           "variables": {"k_all": "c2", "k_car": "c2", "k_mixin": "c2", "k_cb": "c2", "k_c2": "c2", "only_c2": "c2", "e_car": "c2", "e_p": "c2"}},
+    "c1": {"meta": {"description": "car one", "type": "car"}, "config": {"base": "b1,,b4,b2"},
+           "variables": {"k_all": "c1", "k_car": "c1", "only_c1": "c1", "e_car": "", "e_cb": "", "e_mixin": "c1"}},
+    "mx": {"meta": {"description": "a mixin", "type": "mixin"}, "variables": {"k_all": "mx", "k_mixin": "mx", "k_mx": "mx", "only_mx": "mx", "e_mixin": ""}},
 }
 _BASES = {
-    "b1": {"variables": {"k_all": "b1", "k_base": "b1", "k_in": "b1", "k_cb": "b1", "only_b1": "b1"}},
+    "b1": {"variables": {"k_all": "b1", "k_base": "b1", "k_in": "b1", "k_cb": "b1", "only_b1": "b1", "e_cb": "b1", "e_in": "b1"}},
     "b2": None,  # a config base without a config.ini
-    "b3": {"variables": {"k_all": "b3", "k_base": "b3", "k_bp": "b3", "only_b3": "b3"}},
-    "b4": {"variables": {"k_in": "b4", "only_b4": "b4"}},
+    "b3": {"variables": {"k_all": "b3", "k_base": "b3", "k_bp": "b3", "only_b3": "b3", "e_base": "b3"}},
+    "b4": {"variables": {"k_in": "b4", "only_b4": "b4", "e_in": "", "e_base": ""}},
 }
 _NAMES = ["c2", "c1", "mx"]  # neither sorted nor reverse-sorted: any re-ordering of the names changes the result
-_PARAMS = {"k_all": "P", "k_c2": "P", "k_mx": "P", "k_bp": "P", "only_p": "P"}
+_PARAMS = {"k_all": "P", "k_c2": "P", "k_mx": "P", "k_bp": "P", "only_p": "P", "e_p": ""}
+# what the documented precedence demands for the keys that the winning source defines with the empty string (with / without the car parameters)
+_EMPTY = {"e_car": "", "e_mixin": "", "e_cb": "", "e_base": "", "e_in": "", "e_p": ""}
+_EMPTY_NO_PARAMS = dict(_EMPTY, e_p="c2")
 _MODEL = "model team repository (cars c2, c1 and mixin mx composed in that order; config bases b2,b3,b2 / b1,,b4,b2 / none; car parameters P)"
 
 
@@ -1859,11 +1865,18 @@ def team_rules(chk, repo, tm):
     on_vars("config-base variables of every car are accumulated unconditionally", {"only_b1": "b1", "only_b3": "b3", "only_b4": "b4"}, at_loop)
     on_vars("car variables of every car are accumulated unconditionally", {"only_c1": "c1", "only_c2": "c2", "only_mx": "mx"}, at_loop)
     on_vars("loader: config-base variables merged before car variables", {"k_cb": "c2", "k_base": "b1", "k_in": "b4"}, at_ret)
-    if C.raised is None and C.vars is not None and all(C.vars.get(k) == "P" for k in _PARAMS) and C0 is not None and C0.raised is None and C0.vars is not None:
+    if C.raised is None and C.vars is not None and all(k in C.vars and C.vars[k] == v for k, v in _PARAMS.items()) and C0 is not None and C0.raised is None and C0.vars is not None:
         # with the parameters everything is fine: the same composition without parameters is the same minus the parameters
         on_vars("car parameters handed to every car/mixin descriptor", {"k_all": "mx", "k_c2": "c2", "k_mx": "mx", "k_bp": "b3"}, at_loop, C0, " without car parameters")
     else:
         on_vars("car parameters handed to every car/mixin descriptor", dict(_PARAMS), at_loop)
+    # "for every team directory ... with ARBITRARY variable sets": the precedence is a statement about DEFINITIONS, not about values. `key =` (the empty string) is a legal definition
+    # and the way to clear a default of an earlier car / a config base: the later car's / the car's / the later base's / the parameter's empty value is the composed value - a
+    # reader, a merge or a copy that skips "blank" values lets the earlier, lower-precedence value survive into the rendered configuration.
+    text = "a variable that the winning source defines with the empty string (`key =`) takes part in the precedence like any other definition: it replaces the earlier / lower-precedence value"
+    on_vars(text, _EMPTY, at_ret)
+    if C.raised is None and C.vars is not None and all(k in C.vars and C.vars[k] == v for k, v in _EMPTY.items()) and C0 is not None:
+        on_vars(text + " (no car parameters)", _EMPTY_NO_PARAMS, at_ret, C0, " without car parameters")
 
     # ---- CarLoader.load_car: one descriptor ----------------------------------------------------------------------------------------------------------------------------
     D1, D2, DM, DM0, DME = Described("c1", _PARAMS), Described("c2", _PARAMS), Described("mx", _PARAMS), Described("mx", None), Described("mx", {})
@@ -2050,15 +2063,18 @@ def installer_rules(chk, repo, pv, st):
 # ---- cleanup on values -----------------------------------------------------------------------------------------------------------------------------------------------------
 
 
-def _simulate_cleanup(repo, pv, cu, preserve, install, data, undeletable=(), links=None):
-    """cleanup(preserve, install, data) over a model file system in which every path exists; removing a path in `undeletable` fails with OSError, a path in `links` is a symbolic
-    link to a directory (rmtree / rmdir of the link itself fails with OSError, unlink / remove works, realpath gives the target). Returns the recorded removals [(kind, path)], the
-    simulation and the exception that escaped (None if cleanup returned)."""
+def _simulate_cleanup(repo, pv, cu, preserve, install, data, undeletable=(), links=None, missing=()):
+    """cleanup(preserve, install, data) over a model file system in which every path exists except those in `missing` (and everything below them: removing one of those fails with
+    FileNotFoundError); removing a path in `undeletable` fails with OSError, a path in `links` is a symbolic link to a directory (rmtree / rmdir of the link itself fails with
+    OSError, unlink / remove works, realpath gives the target). Returns the recorded removals [(kind, path)], the simulation and the exception that escaped (None if cleanup returned)."""
     events = []
     links = dict(links or {})
 
     def fails(path):
         return isinstance(path, str) and path in undeletable
+
+    def absent(path):
+        return isinstance(path, str) and any(path == m or path.startswith(m.rstrip("/") + "/") for m in missing)
 
     def rmtree(path=OPAQUE, *a, **k):
         if k.get("onerror") is not None or k.get("onexc") is not None:
@@ -2066,20 +2082,20 @@ def _simulate_cleanup(repo, pv, cu, preserve, install, data, undeletable=(), lin
         quiet = k.get("ignore_errors", a[0] if a else False)
         if quiet is OPAQUE:
             raise CannotEval("shutil.rmtree(ignore_errors=<unknown>)")
-        if fails(path) or (isinstance(path, str) and path in links):
+        if fails(path) or absent(path) or (isinstance(path, str) and path in links):
             if quiet:
                 return None  # fails silently
-            raise ModelError("OSError")
+            raise ModelError("FileNotFoundError" if absent(path) else "OSError")
         events.append(("tree", path))
 
     def unlink(path=OPAQUE, *a, **k):
-        if fails(path):
-            raise ModelError("OSError")
+        if fails(path) or absent(path):
+            raise ModelError("FileNotFoundError" if absent(path) else "OSError")
         events.append(("unlink" if isinstance(path, str) and path in links else "file", path))
 
     def rmdir(path=OPAQUE, *a, **k):
-        if fails(path) or (isinstance(path, str) and path in links):
-            raise ModelError("OSError")
+        if fails(path) or absent(path) or (isinstance(path, str) and path in links):
+            raise ModelError("FileNotFoundError" if absent(path) else "OSError")
         events.append(("dir", path))
 
     def move(src=OPAQUE, dst=OPAQUE, *a, **k):
@@ -2087,7 +2103,7 @@ def _simulate_cleanup(repo, pv, cu, preserve, install, data, undeletable=(), lin
 
     for f in (rmtree, unlink, rmdir, move):
         f._raw = True  # type: ignore[attr-defined]   (an unknown path is recorded as such)
-    world = {"os.path.exists": lambda p: True, "os.path.lexists": lambda p: True, "os.path.isdir": lambda p: True, "os.path.isfile": lambda p: False, "os.path.islink": lambda p: p in links,
+    world = {"os.path.exists": lambda p: not absent(p), "os.path.lexists": lambda p: not absent(p), "os.path.isdir": lambda p: not absent(p), "os.path.isfile": lambda p: False, "os.path.islink": lambda p: p in links,
              "os.path.realpath": lambda p: links.get(p, p), "os.path.abspath": lambda p: p, "os.readlink": lambda p: links[p],
              "shutil.rmtree": rmtree, "os.remove": unlink, "os.unlink": unlink, "os.rmdir": rmdir, "os.removedirs": rmdir, "shutil.move": move, "os.rename": move}
     sim = Sim(repo, externals=world)
@@ -2150,8 +2166,42 @@ def cleanup_rules(chk, repo, pv):
         chk.unknown("O13.4", f"delete_path removes the given tree: no removal call was seen{blind_g}", cu) if blind_g else chk.ob("O13.4", "delete_path removes the given tree", False, cu, "nothing is removed at all")
     else:
         chk.ob("O13.4", "delete_path removes the given tree", not wrong, cu, "" if not wrong else f"model: {wrong!r} - a data path / the installation is a directory tree, it needs a recursive removal")
+    _section(chk, "O13.4", "cleanup: paths that are already gone", lambda: cleanup_independence_rule(chk, "O13.4", repo, pv, cu, at))
     _section(chk, "O13.4", "cleanup: failure containment", lambda: cleanup_isolation_rule(chk, "O13.4", pv))
     _section(chk, "O13.4", "cleanup: symbolic-link data path", lambda: symlinked_data_path_rule(chk, "O13.4", pv, cu))
+
+
+def cleanup_independence_rule(chk, rid, repo, pv, cu, at):
+    """'cleanup removes the installation AND ALL data paths ... for every installation directory content': whether ONE of the given paths is removed never depends on whether
+    ANOTHER one still exists - data paths given by the user (car parameter data_paths) live outside the installation, so a missing installation says nothing about them (a second
+    cleanup after one that got half-way, an installation removed by hand), and a data path that is already gone says nothing about the remaining ones. Decided on VALUES: cleanup
+    (preserve off) is interpreted over model file systems in which, in turn, the installation (with everything below it) / the first data path / every data path does not exist
+    (os.path.exists is false for it, removing it fails with FileNotFoundError); afterwards every given path that DOES exist has been removed, or cleanup has raised."""
+    install, data = "/node/install", ["/data/one", "/node/install/es/data", "/data/two"]
+    text = "every existing data path and the installation are removed whichever of the OTHER given paths is already gone (no removal depends on the existence of another path)"
+    worlds = [("the installation", [install]), ("the first data path", [data[0]]), ("every data path", list(data))]
+    bad, blind_why, reported = [], [], 0
+    for what, missing in worlds:
+        events, sim, raised = _simulate_cleanup(repo, pv, cu, False, install, data, missing=missing)
+        if raised is not None:
+            reported += 1  # the failure surfaces: not silent
+            continue
+        removed = [p for _, p in events]
+        there = [p for p in data + [install] if not any(p == m or p.startswith(m + "/") for m in missing)]
+        left = [p for p in there if p not in [q for q in removed if isinstance(q, str)]]
+        if not left:
+            continue
+        if sim.notes or _relevant_unknown(sim, data + [install]) or any(not isinstance(p, str) for p in removed):
+            blind_why.append(f"with {what} already gone no removal of {left} was seen, but the run was not fully interpreted ({_why(sim)})")
+        else:
+            bad.append(f"model cleanup(preserve=False, {install!r}, {data!r}) in a file system where {what} ({', '.join(missing)}) does not exist any more: cleanup returns normally, "
+                       f"{removed!r} removed - {left!r} still exist and stay on disk although preserve-install is off")
+    if bad:
+        chk.ob(rid, text, False, at, bad[0] + (f" (+{len(bad) - 1} more model file system(s))" if len(bad) > 1 else ""))
+    elif blind_why:
+        chk.unknown(rid, f"{text}: {blind_why[0]}", at)
+    else:
+        chk.ob(rid, text, True, at, f"{len(worlds)} model file systems" + (f"; in {reported} of them cleanup raises (the failure is reported)" if reported else ""))
 
 
 # ---- template mirroring on values ------------------------------------------------------------------------------------------------------------------------------------------
@@ -2224,7 +2274,23 @@ class _File(Native):
         pass
 
 
+_STALE = "the model installation is not empty: every target path already holds a regular file of the same size and time stamp as the file provisioning puts there, with OTHER content"
+
+
 def _mirror_world(events):
+    """recording models of os.walk / open / shutil / jinja2 over the model trees. 'For every installation directory content': the installation the files go to is the adversarial
+    one - every path exists already (os.path.exists / isfile), and what is there has the same type, size and modification time as the file of the config base but other bytes (a
+    left-over, a file shipped with the distribution, the file an earlier config base put there; archives with normalised time stamps, coarse file-system time stamps). So size /
+    time-stamp comparisons and filecmp.cmp(shallow=True, the default: it compares os.stat signatures and reads nothing when they agree) say 'same', a comparison of the contents
+    (shallow=False) says 'different'. Whether a file of a config base reaches the installation must not depend on any of that."""
+    names = {n for tree in _TREES.values() for files in tree.values() for n in files}
+
+    def isfile(p):
+        return posixpath.basename(p) in names
+
+    def same_file(a, b, shallow=True):
+        return True if a == b else bool(shallow)
+
     def walk(top, *a, **k):
         if top not in _TREES:
             raise CannotEval(f"os.walk({top!r}): not a directory of the model")
@@ -2243,12 +2309,15 @@ def _mirror_world(events):
 
     open_._raw = copy._raw = True  # type: ignore[attr-defined]
     return {"os.walk": walk, "open": open_, "io.open": open_, "shutil.copy": copy, "shutil.copy2": copy, "shutil.copyfile": copy, "os.makedirs": lambda *a, **k: None, "os.mkdir": lambda *a, **k: None,
-            "os.path.exists": lambda p: True, "os.path.isdir": lambda p: True, "jinja2.Environment": _JinjaEnv, "jinja2.FileSystemLoader": _Loader, "jinja2.loaders.FileSystemLoader": _Loader}
+            "os.path.exists": lambda p: True, "os.path.isdir": lambda p: True, "os.path.lexists": lambda p: True, "os.path.isfile": isfile, "os.path.islink": lambda p: False,
+            "os.path.getsize": lambda p: 4096, "os.path.getmtime": lambda p: 1600000000.0, "os.path.samefile": lambda a, b: a == b, "filecmp.cmp": same_file, "filecmp.clear_cache": lambda: None,
+            "jinja2.Environment": _JinjaEnv, "jinja2.FileSystemLoader": _Loader, "jinja2.loaders.FileSystemLoader": _Loader}
 
 
 class _ModelCar(Native):
     def __init__(self):
-        self.variables = {"marker": "CAR", "docker_image": "img", "runtime.jdk": "17", "runtime.jdk.bundled": "true", "http_port": "1", "node_name": "car's"}
+        # (`cleared`: a variable the car defines with the empty string - it reaches the renderer like any other car variable)
+        self.variables = {"marker": "CAR", "cleared": "", "docker_image": "img", "runtime.jdk": "17", "runtime.jdk.bundled": "true", "http_port": "1", "node_name": "car's"}
         self.config_paths = [_S1, _S2]
         self.names, self.name, self.root_path = ["model"], "model", []
 
@@ -2327,7 +2396,7 @@ def _mirror_judgement(events, sim, roots, target_root, mark):
             mine = [c for c in copies if c[0] == src]
             if not mine:
                 byname = [c for c in copies if isinstance(c[0], str) and posixpath.basename(c[0]) == name]
-                (b_src if byname else m_cp).append(f"`{src}` is copied from `{byname[0][0]}`" if byname else f"no verbatim copy of the binary file `{src}`")
+                (b_src if byname else m_cp).append(f"`{src}` is copied from `{byname[0][0]}`" if byname else f"no verbatim copy of the binary file `{src}` ({_STALE})")
                 continue
             d = mine[0][1]
             if not isinstance(d, str):
@@ -2414,13 +2483,16 @@ def mirroring_rules(chk, repo, pv, st):
             f"DockerProvisioner.{dprep.name} could not be interpreted ({why2})" if j2 is None else ("" if j2 in located else f"no file operation on the model trees was seen in DockerProvisioner.{dprep.name} ({_why(sim2)})")) if x), pv.tree)
     FACETS = [("relroot", "relative root == directory path relative to the source root"), ("target", "target file == join(join(target root, relative root), name)"),
               ("append", "text files opened in append mode"), ("written", "the rendered template is written"),
-              ("env", "a fresh template environment per walked directory, loading from that directory"), ("copied", "other files copied verbatim"),
+              ("env", "a fresh template environment per walked directory, loading from that directory"), ("copied", "other files copied verbatim, whatever the installation already holds at the target path"),
               ("source", "source file == join(walked directory, name)")]
     for fn, j, sim_ in ((acf, j1, sim1), (dprep, j2, sim2)):
         if j is None:
             continue
         tag = source.qualname(fn)
         walks = [n for n in ast.walk(fn) if isinstance(n, ast.For) and isinstance(n.iter, ast.Call) and dotted(n.iter.func) == "os.walk"]
+        if not walks and fn is prep:  # the end-to-end run: the walk lives in the function that applies one config base
+            elsewhere = [n for f_ in pv.tree.body if isinstance(f_, ast.FunctionDef) for n in ast.walk(f_) if isinstance(n, ast.For) and isinstance(n.iter, ast.Call) and dotted(n.iter.func) == "os.walk"]
+            walks = elsewhere if len(elsewhere) == 1 else []
         at = walks[0] if walks else fn
         for facet, text in FACETS:
             verdict, detail = j[facet]
@@ -2683,9 +2755,10 @@ def rendered_variables_rules(chk, repo, pv, st):
     elif any(snap is None for _, snap in used):
         chk.unknown("O13.5", f"{text}: the variables handed to the renderer could not be evaluated ({_why(sim5)})", at)
     else:
-        bad = [(p_, k, snap.get(k)) for p_, snap in used for k in sorted(INTERNAL_KEYS) if snap.get(k) != "NODE"] + [(p_, "marker", snap.get("marker")) for p_, snap in used if snap.get("marker") != "CAR"]
+        bad = [(p_, k, snap.get(k)) for p_, snap in used for k in sorted(INTERNAL_KEYS) if snap.get(k) != "NODE"] + [(p_, "marker", snap.get("marker")) for p_, snap in used if snap.get("marker") != "CAR"] + \
+              [(p_, "cleared", snap.get("cleared", "<not defined>")) for p_, snap in used if snap.get("cleared", "<not defined>") != ""]
         chk.ob("O13.5", text, not bad, at, f"{len(used)} rendering(s) / application(s) in the model run" + ("" if not bad else
-               f"; `{bad[0][0]}` is rendered with `{bad[0][1]}` = {bad[0][2]!r} (model: node variables 'NODE', plugin variables 'PLUGIN', car variable marker='CAR')"))
+               f"; `{bad[0][0]}` is rendered with `{bad[0][1]}` = {bad[0][2]!r} (model: node variables 'NODE', plugin variables 'PLUGIN', car variables marker='CAR' and cleared='')"))
     # docker provisioner: the same question for the attribute its templates are rendered with
     dinit = pv.methods(DP).get("__init__")
     if dinit is None:
@@ -2754,7 +2827,10 @@ def run(chk):
         "(two same-named templates in different directories, a template that renders to nothing, binaries, a second base providing the same file): every file reaches target root + "
         "relative directory + name, text files are appended with the rendering of THEIR template ending in a newline, others are copied; the text/binary predicate on file names. "
         "cleanup over a model file system: nothing removed when preserving, every data path and the installation otherwise; with one path that cannot be removed the rest is still "
-        "removed or the failure surfaces; with a data path that is a symbolic link the link is dealt with or the refusal surfaces. Helper functions, comprehensions, other accumulator "
+        "removed or the failure surfaces; with a data path that is a symbolic link the link is dealt with or the refusal surfaces; with the installation / a data path / every data path already gone every path that still "
+        "exists is removed all the same. An empty definition (`key =`, `key:`) is a definition: the model team repository, the car parameters and the model car define keys with the empty "
+        "string where the documented precedence lets them win. The model installation is not empty: every target path already holds a file with the same size / time stamp and other "
+        "content (shallow comparisons say 'same', content comparisons 'different'); every binary file is copied all the same. Helper functions, comprehensions, other accumulator "
         "idioms, renamed locals / attributes compute the same values; what the interpreter cannot evaluate is 'not recognised', never a violation. "
         "Rally's node variables: the variables the templates are rendered with are modelled as ordered merge layers (followed through locals, dict displays, ChainMap, properties and - by "
         "constructor field flow - through the installer objects): for every node variable the last layer that can hold it is Rally's own; cross-checked on values in the model run of prepare."
@@ -2800,6 +2876,9 @@ _RESOLVE_HELPER = ("    def _resolve_config_bases(self, config_bases):\n        
                    "                self._copy_section(base_config, \"variables\", config_base_vars)\n        return root_paths, config_paths, config_base_vars\n\n")
 _COPY_SECTION = ("    def _copy_section(self, cfg: \"configparser.ConfigParser\", section: str, target: MutableMapping[str, Any]) -> MutableMapping[str, Any]:\n"
                  "        if section in cfg.sections():\n            for k, v in cfg[section].items():\n                target[k] = v\n        return target\n")
+_COPY_LOOP = "            for k, v in cfg[section].items():\n                target[k] = v\n"
+_BIN_ELSE = "            else:\n                logger.info(\"Treating [%s] as binary and copying as is to [%s].\", source_file, target_file)\n                shutil.copy(source_file, target_file)\n"
+_WIPE_ELSE = "    else:\n        logger.info(\"Wiping benchmark candidate installation at [%s].\", install_dir)\n"
 _AC_HEAD = "def _apply_config(source_root_path, target_root_path, config_vars):\n"
 _TARGET_HELPER = "def _target_file(target_root, source_root, walked, name):\n    return os.path.normpath(os.path.join(target_root, os.path.relpath(walked, source_root), name))\n\n\n"
 
@@ -2945,4 +3024,44 @@ VARIANTS = [
        "    @classmethod\n    def _copy_section(cls, target, cfg, section):\n        if cfg.has_section(section):\n            target.clear()\n            target.update(cfg[section])\n        return target\n", "O13.1"),
      V("", "break", _T, "self._copy_section(base_config, \"variables\", config_base_vars)", "self._copy_section(config_base_vars, base_config, \"variables\")"),
      V("", "break", _T, "self._copy_section(config, \"variables\", {})", "self._copy_section({}, config, \"variables\")")],
+    # ---- strengthening round 5 ------------------------------------------------------------------------------------------------------------------------------------------------
+    # (a) an empty definition is a definition (seed m13)
+    V("s5 seed m13: options with an empty value are not copied from the [variables] section", "break", _T, _COPY_LOOP, "            for k, v in cfg[section].items():\n                if v:\n                    target[k] = v\n", "O13.1"),
+    V("s5 break: blank values filtered in a bulk update of the section reader", "break", _T, _COPY_LOOP, "            target.update({k: v for k, v in cfg[section].items() if v.strip()})\n", "O13.1"),
+    V("s5 break: the composition merges only the non-empty car variables", "break", _T, "        all_car_vars.update(descriptor.variables)\n", "        all_car_vars.update({k: v for k, v in descriptor.variables.items() if v})\n", "O13.1"),
+    V("s5 break: an empty config-base variable only fills a gap (never replaces an earlier base's value)", "break", _T, "        all_config_base_vars.update(descriptor.config_base_variables)\n",
+      "        for k, v in descriptor.config_base_variables.items():\n            if v or k not in all_config_base_vars:\n                all_config_base_vars[k] = v\n", "O13.1"),
+    V("s5 break: car parameters with an empty value are dropped", "break", _T, "            variables.update(car_params)\n", "            variables.update({k: v for k, v in car_params.items() if v != \"\"})\n", "O13.1"),
+    V("s5 break: the provisioner drops the empty variables before rendering", "break", _P, "            self.apply_config(p, target_root_path, provisioner_vars)\n",
+      "            self.apply_config(p, target_root_path, {k: v for k, v in provisioner_vars.items() if v != \"\"})\n", "O13.5"),
+    V("s5 keep: the section reader skips None (configparser never yields None here)", "keep", _T, _COPY_LOOP, "            for k, v in cfg[section].items():\n                if v is not None:\n                    target[k] = v\n"),
+    V("s5 keep: the section reader goes through options() / get()", "keep", _T, _COPY_LOOP, "            for k in cfg.options(section):\n                target[k] = cfg.get(section, k)\n"),
+    # (b) a binary file reaches the installation whatever is there already (seed m14)
+    [V("s5 seed m14: binary file not copied when a shallow filecmp.cmp says the target is identical", "break", _P, _BIN_ELSE,
+       "            elif os.path.isfile(target_file) and filecmp.cmp(source_file, target_file):\n                logger.info(\"Treating [%s] as binary. [%s] is already identical.\", source_file, target_file)\n" + _BIN_ELSE, "O13.3"),
+     V("", "break", _P, "import glob\n", "import filecmp\nimport glob\n")],
+    V("s5 break: binary file only copied when the target does not exist yet (the first config base / a left-over wins)", "break", _P, _BIN_ELSE, "            elif not os.path.exists(target_file):\n" + _BIN_ELSE[len("            else:\n"):], "O13.3"),
+    V("s5 break: binary file only copied when the sizes differ", "break", _P, _BIN_ELSE,
+      "            elif not os.path.isfile(target_file) or os.path.getsize(source_file) != os.path.getsize(target_file):\n" + _BIN_ELSE[len("            else:\n"):], "O13.3"),
+    V("s5 break: the docker provisioner keeps an existing file", "break", _P, "                        shutil.copy(source_file, target_file)\n",
+      "                        if not os.path.isfile(target_file):\n                            shutil.copy(source_file, target_file)\n", "O13.3"),
+    [V("s5 keep: the copy is skipped only when the CONTENTS are equal (filecmp.cmp(shallow=False))", "keep", _P, _BIN_ELSE,
+       "            elif os.path.isfile(target_file) and filecmp.cmp(source_file, target_file, shallow=False):\n                logger.info(\"Treating [%s] as binary. [%s] is already identical.\", source_file, target_file)\n" + _BIN_ELSE),
+     V("", "keep", _P, "import glob\n", "import filecmp\nimport glob\n")],
+    V("s5 keep: an existing target is only mentioned in the log", "keep", _P, _BIN_ELSE,
+      _BIN_ELSE[:len("            else:\n")] + "                if os.path.lexists(target_file):\n                    logger.debug(\"Replacing [%s].\", target_file)\n" + _BIN_ELSE[len("            else:\n"):]),
+    # (c) no removal depends on the existence of another path (seed m15)
+    V("s5 seed m15: cleanup does nothing when the installation is already gone", "break", _P, _WIPE_ELSE,
+      "    elif not os.path.exists(install_dir):\n        logger.info(\"Benchmark candidate installation at [%s] has already been wiped.\", install_dir)\n" + _WIPE_ELSE, "O13.4"),
+    V("s5 break: the data paths are only visited while the installation exists", "break", _P, "        for path in data_paths:\n            delete_path(path)\n\n        delete_path(install_dir)\n",
+      "        if os.path.isdir(install_dir):\n            for path in data_paths:\n                delete_path(path)\n            delete_path(install_dir)\n", "O13.4"),
+    V("s5 break: the loop stops at the first data path that is already gone", "break", _P, "        for path in data_paths:\n            delete_path(path)\n",
+      "        for path in data_paths:\n            if not os.path.exists(path):\n                break\n            delete_path(path)\n", "O13.4"),
+    V("s5 break: nothing is done when no data path is left (the installation survives)", "break", _P, _WIPE_ELSE,
+      "    elif not any(os.path.exists(p) for p in data_paths):\n        logger.info(\"Nothing left to wipe for [%s].\", install_dir)\n" + _WIPE_ELSE, "O13.4"),
+    V("s5 keep: the missing installation is only logged, the data paths are still removed", "keep", _P, _WIPE_ELSE,
+      "    else:\n        if not os.path.exists(install_dir):\n            logger.info(\"Benchmark candidate installation at [%s] has already been wiped.\", install_dir)\n        logger.info(\"Wiping benchmark candidate installation at [%s].\", install_dir)\n"),
+    V("s5 keep: EAFP in delete_path (FileNotFoundError ignored instead of the exists test)", "keep", _P,
+      "        if os.path.exists(p):\n            try:\n                logger.debug(\"Deleting [%s].\", p)\n                shutil.rmtree(p)\n            except OSError:\n                logger.exception(\"Could not delete [%s]. Skipping...\", p)\n",
+      "        try:\n            logger.debug(\"Deleting [%s].\", p)\n            shutil.rmtree(p)\n        except FileNotFoundError:\n            pass\n        except OSError:\n            logger.exception(\"Could not delete [%s]. Skipping...\", p)\n"),
 ]
